@@ -6,9 +6,10 @@
 
     Instants are [Z] Unix nanoseconds, durations [Z] nanoseconds.  A [time.Time] that [IsZero]
     is [None].  Two things the code gets from outside are inputs of the model:
-    - [scale L r] = [time.Duration(float64(L) * r)], the float64 product (a [Section] variable;
-      the harness computes it in Go with the same expression; an exact integer model of the
-      float64 arithmetic, [Renewal.F64.scale_f64], is compared with it on every case);
+    - [scale L r] = [time.Duration(float64(L) * r)], the float64 product (a [Section] variable:
+      the theorems hold for every [scale] within a stated tolerance; the instance the check runs
+      is the exact integer model of the float64 arithmetic [Renewal.F64.scale_f64], proved to be
+      within the tolerance in F64Proofs.v and compared with Go's result on every case);
     - [rnd] = the value returned by [rand.Int63n] when a renewal time is improvised.
 
     Numeric literals of the code ([ari_emergency_ratio], [imminent_ratio],
